@@ -165,7 +165,7 @@ func init() {
 		Enums: EnumCallShapes,
 		Rule: "profile `calls` (varargs, multiple results in every context, method sugar, tail calls, select, unpack) + bounded-exhaustive call shapes + corpus; oracle = Lean reference semantics"})
 	reg(progSpec{Prop: "C03", Profiles: []string{"closures"}, QuickN: 1200, ThoroughN: 30000, FaultPct: 10, Layouts: one,
-		Enums: EnumClosureExitShapes, WrapEnums: true,
+		Enums: func() []*Program { return append(EnumClosureExitShapes(), EnumRegisterZeroLoopShapes()...) }, WrapEnums: true,
 		Rule: "profile `closures` (capture × exit path × register reuse; shared upvalues; setfenv/getfenv) + exhaustive closure exit shapes + corpus; oracle = Lean reference semantics"})
 	reg(progSpec{Prop: "C04", Profiles: []string{"meta"}, QuickN: 1000, ThoroughN: 25000, FaultPct: 10, Layouts: one,
 		Rule: "profile `meta` (metatables with every subset of events, chains, operand type pairs, logging handlers) + corpus; oracle = Lean reference semantics (manual §2.8)"})
